@@ -62,7 +62,9 @@ def calculate_normal_3d(polygon):
         normal[0] += minus[1] * plus[2]
         normal[1] += minus[2] * plus[0]
         normal[2] += minus[0] * plus[1]
-    if near_zero(normal):
+    # Compare relative to the size of the polygon: the normal scales with its area.
+    size = np.max(np.ptp(np.asarray(polygon), axis=0))
+    if size == 0 or near_zero(normal / size ** 2):
         raise ValueError("No normal found")
     else:
         return normal
